@@ -20,7 +20,7 @@ def run(ctx):
     rng = random.Random(ctx.seed)
     if q:
         retry_gates = ("ds.upreset.retry", "ds.retry.begin", "ds.retry.pool", "ds.retry.chosen", "ds.pe#7", "ds.pe#8", "ds.pe#10")
-        core = [c for c in cases if c["hold"] == "none" or (c["hold"] in retry_gates and c["hold2"] == "none") or c.get("steps")]
+        core = [c for c in cases if c["hold"] == "none" or (c["hold"] in retry_gates and c["hold2"] == "none") or c.get("steps") or c.get("body")]
         three = [c for c in cases if c["hold2"] != "none"]
         rest = [c for c in cases if c not in core and c["hold2"] == "none"]
         picked = core + rng.sample(three, min(len(three), 200)) + rng.sample(rest, min(len(rest), 240))
@@ -30,7 +30,7 @@ def run(ctx):
     traces, results = lc.run_sharded(ctx, "c03", picked, shards=12 if q else 14)
     # the same proxy state machine behind an xprotocol (bolt) listener, two-way and one-way requests: cases without
     # processError-count gates (a bolt request carries a body, which shifts that count) and without step schedules
-    plain = [c for c in cases if not c.get("steps") and not c["hold"].startswith("ds.pe#") and not c["hold2"].startswith("ds.pe#")]
+    plain = [c for c in cases if not c.get("steps") and not c.get("body") and not c["hold"].startswith("ds.pe#") and not c["hold2"].startswith("ds.pe#")]
     bolt_cases = [c for c in plain if c["hold"] == "none"] + rng.sample([c for c in plain if c["hold"] != "none"], 120 if q else 1500)
     oneway_cases = [c for c in plain if c["hold"] == "none" and c["script"][0] in ("ok", "close", "hang", "s503")]
     t2, r2 = lc.run_sharded(ctx, "c03", bolt_cases, shards=8 if q else 12, extra_args=["-proto", "bolt"], tag="_bolt")
